@@ -33,8 +33,8 @@ def base_rules(rng):
         rules.append({"name": "AS", "in": "S", "out": "o", "cmd": "as ${in} -o ${out}", "shareable": False})
     if pick(rng, 0.2):
         rules[0]["gcc_deps"] = "${out}.d"
-    if pick(rng, 0.15):
-        rules[0]["export"] = ["X", {"EXP": "${OPT}"}]
+    if pick(rng, 0.4 if MULTIKEY else 0.15):
+        rules[0]["export"] = ["X", {"EXP": "${OPT}", **({"EXP2": "two", "EXP3": "three"} if MULTIKEY else {})}]
     if pick(rng, 0.1):
         rules.append({"name": "POST_LINK", "in": "elf", "out": "bin", "cmd": "objcopy ${in} ${out}"})
     if pick(rng, 0.1):
@@ -45,13 +45,18 @@ def base_rules(rng):
         rules[0]["description"] = "CC ${out}"
     return rules
 
+MULTIKEY = False      # focus == 'maps': YAML maps with several keys (document order matters)
+
 def dep_list(rng, names, nmax=3, p_opt=0.4, p_if=0.2):
     out = []
     for _ in range(rng.randint(0, nmax)):
         n = rng.choice(names)
         r = rng.random()
-        if r < p_if:
-            out.append({rng.choice(names): [("?" if pick(rng, 0.3) else "") + rng.choice(names)]})
+        if r < (0.5 if MULTIKEY else p_if):
+            d = {}
+            for _k in range(rng.randint(2, 4) if MULTIKEY else 1):
+                d[rng.choice(names)] = [("?" if pick(rng, 0.3) else "") + rng.choice(names) for _j in range(rng.randint(1, 2) if MULTIKEY else 1)]
+            out.append(d)
         elif r < p_if + p_opt:
             out.append("?" + n)
         else:
@@ -73,7 +78,8 @@ def gen_module(rng, n, names, ctx_choice, penv, pc, pu, focus):
         if pick(rng, p):
             dl = dep_list(rng, names)
             if dl: m[key] = dl
-    if pick(rng, 0.3): m["uses"] = [("?" if pick(rng, 0.2) else "") + rng.choice(names) for _ in range(rng.randint(1, 2))]
+    if pick(rng, 0.7 if focus == "build" else 0.3):
+        m["uses"] = [("?" if pick(rng, 0.2) else "") + rng.choice(names) for _ in range(rng.randint(2, 4) if focus == "build" else rng.randint(1, 2))]
     if pick(rng, 0.4): m["provides"] = rng.sample(FEATURES, rng.randint(1, 2))
     if pick(rng, pu): m["provides_unique"] = [rng.choice(FEATURES)]
     if pick(rng, pc): m["conflicts"] = [rng.choice(FEATURES if pick(rng, 0.6) else names)]
@@ -87,7 +93,12 @@ def gen_module(rng, n, names, ctx_choice, penv, pc, pu, focus):
     else:
         if pick(rng, 0.8):
             srcs = [n + ".c"] + (["x%d.c" % rng.randint(0, 2)] if pick(rng, 0.3) else []) + ([n + ".S"] if pick(rng, 0.1) else [])
-            if pick(rng, 0.25): srcs.append({rng.choice(names[:2] if pick(rng, 0.6) else names): ["opt_" + n + ".c"]})
+            if pick(rng, 0.6 if MULTIKEY else 0.25):
+                d = {}
+                for _k in range(rng.randint(2, 3) if MULTIKEY else 1):
+                    g = rng.choice(names[:2] if pick(rng, 0.6) else names)
+                    d[g] = ["opt_%s_%s.c" % (n, g)]
+                srcs.append(d)
             m["sources"] = srcs
         if pick(rng, 0.03 if focus != "build" else 0.08): m["is_global_build_dep"] = True
     env = {}
@@ -114,7 +125,8 @@ def gen_defaults(rng, names, penv):
     return d
 
 def gen_project(rng, size="small", features=None, focus=None):
-    global VARS
+    global VARS, MULTIKEY
+    MULTIKEY = focus == "maps"
     VARS = ["CFLAGS", "X", "LIBS"] + (["Y", "notify", "OPT"] if focus != "env" else [])
     penv = 0.6 if focus == "env" else 0.3
     pc = 0.3 if focus == "conflicts" else 0.08
@@ -218,7 +230,7 @@ def gen_project(rng, size="small", features=None, focus=None):
     cli = {}
     if pick(rng, 0.3): cli["select"] = [("?" if pick(rng, 0.3) else "") + rng.choice(names) for _ in range(rng.randint(1, 2))]
     if pick(rng, 0.15): cli["disable"] = [rng.choice(names) for _ in range(rng.randint(1, 2))]
-    if pick(rng, 0.25): cli["define"] = [rng.choice(VARS[:3]) + rng.choice(["=", "+="]) + rng.choice(["d1", "d 2", "${X}", ""]) for _ in range(rng.randint(1, 3))]
+    if pick(rng, 0.7 if MULTIKEY else 0.25): cli["define"] = [rng.choice(VARS[:3]) + rng.choice(["=", "+="]) + rng.choice(["d1", "d 2", "${X}", ""]) for _ in range(rng.randint(1, 3))]
     if pick(rng, 0.15): cli["builders"] = rng.sample([b["name"] for b in builders], rng.randint(1, len(builders)))
     if pick(rng, 0.15): cli["apps"] = rng.sample([a["name"] for a in apps], rng.randint(1, len(apps)))
     return files, cli
